@@ -193,7 +193,11 @@ func init() {
 		if err != nil {
 			fatal(err)
 		}
-		defer os.RemoveAll(root)
+		if os.Getenv("VERIF_KEEP") == "" {
+			defer os.RemoveAll(root)
+		} else {
+			fmt.Fprintln(os.Stderr, "runtime: keeping", root)
+		}
 		_ = os.MkdirAll(filepath.Join(root, "rt"), 0755)
 		_ = os.WriteFile(filepath.Join(root, "rt", "rt.go"), []byte(rtSource), 0644)
 		var cases []GCase
@@ -345,6 +349,14 @@ func init() {
 		}
 		if len(bad) > 0 {
 			sum.Skipped["does-not-compile"] = len(bad)
+			// say why: generated code that does not compile is C01's business, a driver that does not is ours
+			n := 0
+			for _, l := range strings.Split(bout.String(), "\n") {
+				if reCompileErr.MatchString(strings.TrimSpace(l)) && n < 6 {
+					fmt.Fprintln(os.Stderr, "runtime: does not compile:", strings.TrimSpace(l))
+					n++
+				}
+			}
 		}
 		var mainSb strings.Builder
 		mainSb.WriteString("package main\n\nimport (\n\t\"encoding/json\"\n\t\"fmt\"\n\n\t\"exp/rt\"\n")
